@@ -157,7 +157,8 @@ theorem decode_item (t : Item) (ht : t.ok = true) (f : Nat) (hf : need t ≤ f) 
       Bool.false_eq_true, if_false, beq_self_eq_true, if_true]
     simp only [decode_list xs ht.2 f (by omega) rest]
   | .arrIndef xs =>
-    simp only [Item.ok] at ht
+    simp only [Item.ok, Bool.and_eq_true] at ht
+    replace ht := ht.2
     simp only [need] at hf
     have hh : decodeHead ((0x9f : UInt8) :: (wireList xs ++ [0xff] ++ rest)) = .ok (⟨4, 31, .imm, 0⟩, wireList xs ++ [0xff] ++ rest) := by
       simp +decide [decodeHead]
@@ -179,7 +180,8 @@ theorem decode_item (t : Item) (ht : t.ok = true) (f : Nat) (hf : need t ≤ f) 
       Bool.false_eq_true, if_false, beq_self_eq_true, if_true]
     simp only [decode_mems ms ht.2 f (by omega) rest]
   | .mapIndef ms =>
-    simp only [Item.ok] at ht
+    simp only [Item.ok, Bool.and_eq_true] at ht
+    replace ht := ht.2
     simp only [need] at hf
     have hh : decodeHead ((0xbf : UInt8) :: (wireMems ms ++ [0xff] ++ rest)) = .ok (⟨5, 31, .imm, 0⟩, wireMems ms ++ [0xff] ++ rest) := by
       simp +decide [decodeHead]
